@@ -13,7 +13,21 @@ Statement notes.
    its file, no orphan file, nothing pending) — what `Spec.Entry.out` needs to
    agree with `Disk.fetch` of the row.  `istep_ok`: kept by every call.
  * Every call of `IOp` is covered (no `Covered` restriction): getitem, setitem,
-   delitem, setdefault, pop, popitem, peekitem, len, iter, clear, update.
+   delitem, setdefault, pop, popitem, peekitem, len, iter, clear, update, the views
+   items and values (keys is iter), the comparisons eqTo and neTo (`==`, `!=` with
+   an ordered or an unordered mapping), and rehandle (a new handle on the same
+   directory: pickle round trip, re-opening, copy) — so a history may contain
+   reopen / pickle round trips at any point.
+ * The views and comparisons (`items_irefines`, `values_irefines`, `eqTo_irefines`,
+   `neTo_irefines`) need the hypothesis of `popitem`: `ItemsView.__iter__` /
+   `ValuesView.__iter__` / `Index.__eq__` look every key up again through the
+   Python key decoded from the row (`-- added:` `hcodec`; necessary:
+   `items_irefines_needs_codec`, `values_irefines_needs_codec`,
+   `eqTo_irefines_needs_codec`).  Nothing expires in an Index, so under `hcodec`
+   no look-up misses.  A look-up that misses raises KeyError, which is the outcome
+   of the whole call (model: `Index.itemsWalk`; dictionary: `OSpec.walk`, at an
+   entry whose value cannot be read); C12_Views.lean shows that after a history no
+   entry is unreadable, so the views show all the bindings (`items_after_history`).
  * `-- added:` `0 < x.cache.cfg.page` for `iter` and `clear` (and therefore for
    histories): the page size is a `Cfg` field of the model (the constant 100 in
    core.py); with page size 0 the paging loops see nothing
@@ -41,6 +55,7 @@ Statement notes.
 import DC.Proofs.IRefineOps
 import DC.Proofs.IRefineBlock
 import DC.Proofs.IRefineSetdefault
+import DC.Proofs.IRefineViews
 import DC.Properties.C12
 import DC.Properties.C03_Refine
 
@@ -182,6 +197,54 @@ theorem update_step (x : Index) (m : ODict) (E : Externals) (now : Int) (kvs : L
         | exc e => exact ⟨a1, a2, rfl, a4⟩
         | _ => exact ⟨b1, b2.trans a2, b3, b4⟩
 
+/-- the views look every key up again through the Python key decoded from the row
+(`ItemsView.__iter__`: `for key in mapping: yield (key, mapping[key])`), so — as for `popitem` —
+the stored keys must survive decode-then-encode: -- added: `hcodec` (`items_irefines_needs_codec`) -/
+theorem items_step (x : Index) (m : ODict) (E : Externals) (now : Int)
+    (hok : IOk x) (hr : IRefines x m)
+    (hcodec : ∀ r ∈ x.cache.rows, -- added: the key codec round-trips on the stored keys
+      DC.put E x.cache.cfg.disk (DC.get E x.cache.cfg.disk r.key r.raw) = (r.key, r.raw)) :
+    StepOK x (x.items E now) (OSpec.items m E x.cache.cfg) := by
+  subst hr
+  obtain ⟨h1, h2, h3⟩ := irf_items x E now hok.inv hcodec
+  have hcfg : (x.items E now).1.cache.cfg = x.cache.cfg := congrArg Core.cfg h2
+  exact ⟨iok_of hok h3 hcfg, hcfg, h1, irf_abs_core h2⟩
+
+theorem values_step (x : Index) (m : ODict) (E : Externals) (now : Int)
+    (hok : IOk x) (hr : IRefines x m)
+    (hcodec : ∀ r ∈ x.cache.rows, -- added: the key codec round-trips on the stored keys
+      DC.put E x.cache.cfg.disk (DC.get E x.cache.cfg.disk r.key r.raw) = (r.key, r.raw)) :
+    StepOK x (x.values E now) (OSpec.values m E x.cache.cfg) := by
+  subst hr
+  obtain ⟨h1, h2, h3⟩ := irf_values x E now hok.inv hcodec
+  have hcfg : (x.values E now).1.cache.cfg = x.cache.cfg := congrArg Core.cfg h2
+  exact ⟨iok_of hok h3 hcfg, hcfg, h1, irf_abs_core h2⟩
+
+theorem eqTo_step (x : Index) (m : ODict) (E : Externals) (now : Int) (ordered : Bool)
+    (other : List (PyVal × PyVal)) (hok : IOk x) (hr : IRefines x m)
+    (hcodec : ∀ r ∈ x.cache.rows, -- added: the key codec round-trips on the stored keys
+      DC.put E x.cache.cfg.disk (DC.get E x.cache.cfg.disk r.key r.raw) = (r.key, r.raw)) :
+    StepOK x (x.eqTo E now ordered other) (OSpec.eqTo m E x.cache.cfg ordered other) := by
+  subst hr
+  obtain ⟨h1, h2, h3⟩ := irf_eqTo x E now ordered other hok.inv hcodec
+  have hcfg : (x.eqTo E now ordered other).1.cache.cfg = x.cache.cfg := congrArg Core.cfg h2
+  exact ⟨iok_of hok h3 hcfg, hcfg, h1, irf_abs_core h2⟩
+
+theorem neTo_step (x : Index) (m : ODict) (E : Externals) (now : Int) (ordered : Bool)
+    (other : List (PyVal × PyVal)) (hok : IOk x) (hr : IRefines x m)
+    (hcodec : ∀ r ∈ x.cache.rows, -- added: the key codec round-trips on the stored keys
+      DC.put E x.cache.cfg.disk (DC.get E x.cache.cfg.disk r.key r.raw) = (r.key, r.raw)) :
+    StepOK x (x.neTo E now ordered other) (OSpec.neTo m E x.cache.cfg ordered other) := by
+  subst hr
+  obtain ⟨h1, h2, h3⟩ := irf_neTo x E now ordered other hok.inv hcodec
+  have hcfg : (x.neTo E now ordered other).1.cache.cfg = x.cache.cfg := congrArg Core.cfg h2
+  exact ⟨iok_of hok h3 hcfg, hcfg, h1, irf_abs_core h2⟩
+
+/-- a new handle on the same directory (pickle round trip, re-opening, `copy` of the handle):
+nothing is returned, the contents are the same -/
+theorem rehandle_step (x : Index) (m : ODict) (hok : IOk x) (hr : IRefines x m) :
+    StepOK x x.rehandle (OSpec.rehandle m) := ⟨hok, rfl, rfl, hr⟩
+
 /-! the per-call theorems: same result as the dictionary call, and the relation is preserved -/
 
 theorem getitem_irefines (x : Index) (m : ODict) (E : Externals) (now : Int) (k : PyVal)
@@ -226,6 +289,19 @@ theorem popitem_irefines (x : Index) (m : ODict) (E : Externals) (now : Int) (la
     IRefines (x.popitem E now last).1 (OSpec.popitem m E x.cache.cfg last).1 :=
   ⟨(popitem_step x m E now last hok hr hcodec).out, (popitem_step x m E now last hok hr hcodec).rel⟩
 
+/-- `popitem`, sharper: the key-codec round trip is needed of the row it pops only — the last
+(first) row -/
+theorem popitem_irefines_edge (x : Index) (m : ODict) (E : Externals) (now : Int) (last : Bool)
+    (hok : IOk x) (hr : IRefines x m)
+    (hcodec : ∀ r, (if last then x.cache.rows.getLast? else x.cache.rows.head?) = some r →
+      DC.put E x.cache.cfg.disk (DC.get E x.cache.cfg.disk r.key r.raw) = (r.key, r.raw)) :
+    (x.popitem E now last).2 = (OSpec.popitem m E x.cache.cfg last).2 ∧
+    IRefines (x.popitem E now last).1 (OSpec.popitem m E x.cache.cfg last).1 ∧
+    IOk (x.popitem E now last).1 := by
+  subst hr
+  obtain ⟨h1, h2, h3, h4⟩ := irf_popitem_edge x E now last hok.inv hcodec
+  exact ⟨h1, h2, iok_of hok h4 h3⟩
+
 theorem setdefault_irefines (x : Index) (m : ODict) (E : Externals) (now : Int) (k v : PyVal)
     (hok : IOk x) (hr : IRefines x m) :
     (x.setdefault E now k v).2 = (OSpec.setdefault m E x.cache.cfg k v).2 ∧
@@ -254,17 +330,67 @@ theorem update_irefines (x : Index) (m : ODict) (E : Externals) (now : Int) (kvs
     IRefines (x.update E now kvs).1 (OSpec.update m E x.cache.cfg kvs).1 :=
   ⟨(update_step x m E now kvs hok hr).out, (update_step x m E now kvs hok hr).rel⟩
 
+/- STATEMENTS WITHOUT `hcodec` — FALSE: `items_irefines_needs_codec` below (the Index of
+`Index.popitem_end_needs_codec`: the look-up of the key decoded from the only row misses, the
+model's view raises KeyError — as persistent.py does — where the dictionary shows the item). -/
+theorem items_irefines (x : Index) (m : ODict) (E : Externals) (now : Int)
+    (hok : IOk x) (hr : IRefines x m)
+    (hcodec : ∀ r ∈ x.cache.rows, -- added: the key codec round-trips on the stored keys
+      DC.put E x.cache.cfg.disk (DC.get E x.cache.cfg.disk r.key r.raw) = (r.key, r.raw)) :
+    (x.items E now).2 = (OSpec.items m E x.cache.cfg).2 ∧
+    IRefines (x.items E now).1 (OSpec.items m E x.cache.cfg).1 :=
+  ⟨(items_step x m E now hok hr hcodec).out, (items_step x m E now hok hr hcodec).rel⟩
+
+theorem values_irefines (x : Index) (m : ODict) (E : Externals) (now : Int)
+    (hok : IOk x) (hr : IRefines x m)
+    (hcodec : ∀ r ∈ x.cache.rows, -- added: the key codec round-trips on the stored keys
+      DC.put E x.cache.cfg.disk (DC.get E x.cache.cfg.disk r.key r.raw) = (r.key, r.raw)) :
+    (x.values E now).2 = (OSpec.values m E x.cache.cfg).2 ∧
+    IRefines (x.values E now).1 (OSpec.values m E x.cache.cfg).1 :=
+  ⟨(values_step x m E now hok hr hcodec).out, (values_step x m E now hok hr hcodec).rel⟩
+
+theorem eqTo_irefines (x : Index) (m : ODict) (E : Externals) (now : Int) (ordered : Bool)
+    (other : List (PyVal × PyVal)) (hok : IOk x) (hr : IRefines x m)
+    (hcodec : ∀ r ∈ x.cache.rows, -- added: the key codec round-trips on the stored keys
+      DC.put E x.cache.cfg.disk (DC.get E x.cache.cfg.disk r.key r.raw) = (r.key, r.raw)) :
+    (x.eqTo E now ordered other).2 = (OSpec.eqTo m E x.cache.cfg ordered other).2 ∧
+    IRefines (x.eqTo E now ordered other).1 (OSpec.eqTo m E x.cache.cfg ordered other).1 :=
+  ⟨(eqTo_step x m E now ordered other hok hr hcodec).out,
+   (eqTo_step x m E now ordered other hok hr hcodec).rel⟩
+
+theorem neTo_irefines (x : Index) (m : ODict) (E : Externals) (now : Int) (ordered : Bool)
+    (other : List (PyVal × PyVal)) (hok : IOk x) (hr : IRefines x m)
+    (hcodec : ∀ r ∈ x.cache.rows, -- added: the key codec round-trips on the stored keys
+      DC.put E x.cache.cfg.disk (DC.get E x.cache.cfg.disk r.key r.raw) = (r.key, r.raw)) :
+    (x.neTo E now ordered other).2 = (OSpec.neTo m E x.cache.cfg ordered other).2 ∧
+    IRefines (x.neTo E now ordered other).1 (OSpec.neTo m E x.cache.cfg ordered other).1 :=
+  ⟨(neTo_step x m E now ordered other hok hr hcodec).out,
+   (neTo_step x m E now ordered other hok hr hcodec).rel⟩
+
+/-- persistence operations are the identity on contents: a new handle (pickle round trip,
+re-opening the directory, `copy`) returns nothing and represents the same dictionary -/
+theorem rehandle_irefines (x : Index) (m : ODict) (hok : IOk x) (hr : IRefines x m) :
+    (x.rehandle).2 = (OSpec.rehandle m).2 ∧ IRefines (x.rehandle).1 (OSpec.rehandle m).1 ∧
+    (x.rehandle).2 = .none ∧ (x.rehandle).1 = x ∧ IOk (x.rehandle).1 :=
+  ⟨rfl, hr, rfl, rfl, hok⟩
+
 /-! ### histories -/
 
-/-- the only call that needs a law of the key codec -/
+/-- the calls that need a law of the key codec: `popitem` and the views (`items`, `values`, and the
+comparisons, which read the items), which look a key up again through the Python key decoded from
+its row -/
 def NeedsCodec : IOp → Bool
   | .popitem .. => true
+  | .items .. => true
+  | .values .. => true
+  | .eqTo .. => true
+  | .neTo .. => true
   | _ => false
 
 /-- the hypothesis `popitem` adds: the stored keys survive decode-then-encode under the codec of
 the call -/
 def StepCodec (x : Index) : IOp → Prop
-  | .popitem E _ _ => ∀ r ∈ x.cache.rows,
+  | .popitem E _ _ | .items E _ | .values E _ | .eqTo E _ _ _ | .neTo E _ _ _ => ∀ r ∈ x.cache.rows,
       DC.put E x.cache.cfg.disk (DC.get E x.cache.cfg.disk r.key r.raw) = (r.key, r.raw)
   | _ => True
 
@@ -286,6 +412,11 @@ theorem istep (x : Index) (m : ODict) (op : IOp) (hok : IOk x) (hr : IRefines x 
   | iter E asc => exact iter_step x m E asc hok hr hpg
   | clear => exact clear_step x m hok hr hpg
   | update E now kvs => exact update_step x m E now kvs hok hr
+  | items E now => exact items_step x m E now hok hr hcodec
+  | values E now => exact values_step x m E now hok hr hcodec
+  | eqTo E now ordered other => exact eqTo_step x m E now ordered other hok hr hcodec
+  | neTo E now ordered other => exact neTo_step x m E now ordered other hok hr hcodec
+  | rehandle => exact rehandle_step x m hok hr
 
 /-- the invariant is kept by every call -/
 theorem istep_ok (x : Index) (op : IOp) (hok : IOk x) (hpg : 0 < x.cache.cfg.page)
@@ -301,8 +432,8 @@ same function `D`, and unpickling inverts it. -/
 /-- the codec observations of a call -/
 def opE : IOp → Option Externals
   | .getitem E .. | .setitem E .. | .delitem E .. | .setdefault E .. | .pop E .. | .popitem E ..
-  | .peekitem E .. | .iter E .. | .update E .. => some E
-  | .len | .clear => none
+  | .peekitem E .. | .iter E .. | .update E .. | .items E .. | .values E .. | .eqTo E .. | .neTo E .. => some E
+  | .len | .clear | .rehandle => none
 
 /-- `E` pickles keys with `D`, and its `loads` inverts `D` -/
 def CodecOk (D : PyVal → Bytes) (E : Externals) : Prop := E.dumpsK = D ∧ ∀ k, E.loads (D k) = k
@@ -421,6 +552,11 @@ theorem step_keys (m : ODict) (cfg : Cfg) (op : IOp) :
           rcases ih m1 hK with h | h
           · exact hstep K h
           · exact .inr h
+  | items E now => exact .inl hK
+  | values E now => exact .inl hK
+  | eqTo E now ordered other => exact .inl hK
+  | neTo E now ordered other => exact .inl hK
+  | rehandle => exact .inl hK
 
 theorem step_keysRT (D : PyVal → Bytes) (m : ODict) (cfg : Cfg) (op : IOp) (hd : cfg.disk = .pickle)
     (hE : ∀ E, opE op = some E → CodecOk D E) (hk : KeysRT D m) :
@@ -435,13 +571,14 @@ theorem step_keysRT (D : PyVal → Bytes) (m : ODict) (cfg : Cfg) (op : IOp) (hd
 theorem stepCodec_of (D : PyVal → Bytes) (x : Index) (m : ODict) (op : IOp) (hok : IOk x)
     (hr : IRefines x m) (hE : ∀ E, opE op = some E → CodecOk D E) (hk : KeysRT D m) :
     StepCodec x op := by
-  cases op <;> try trivial
-  rename_i E now last
-  intro r hrm
-  rw [hok.ok.disk]
-  refine hk E (hE E rfl) (r.key, r.raw) ?_
-  rw [← hr]
-  exact List.mem_map.2 ⟨_, List.mem_map.2 ⟨r, hrm, rfl⟩, rfl⟩
+  have key : ∀ E, opE op = some E → ∀ r ∈ x.cache.rows,
+      DC.put E x.cache.cfg.disk (DC.get E x.cache.cfg.disk r.key r.raw) = (r.key, r.raw) := by
+    intro E hop r hrm
+    rw [hok.ok.disk]
+    refine hk E (hE E hop) (r.key, r.raw) ?_
+    rw [← hr]
+    exact List.mem_map.2 ⟨_, List.mem_map.2 ⟨r, hrm, rfl⟩, rfl⟩
+  cases op <;> first | trivial | exact key _ rfl
 
 /-- the hypothesis of the history theorem about the key codec: needed only when the history
 contains a `popitem` -/
@@ -482,7 +619,9 @@ final dictionary, in order.
 -- added: `hD`, `hkeys` (the key codec law `popitem` needs, as a hypothesis on every call's `E`:
    all calls pickle keys with the same `D` and unpickling inverts it; the keys already stored
    round-trip — vacuous for the empty Index).  `irun_refines_no_popitem` below: without `popitem`
-   in the history no codec hypothesis is needed. -/
+   (and without the views and comparisons, which need the same law) in the history no codec
+   hypothesis is needed.  `irun_refines_w` (C12_Views.lean): the agreement is needed only of the
+   calls that write keys and of those that re-encode them. -/
 theorem irun_refines (x : Index) (m : ODict) (ops : List IOp) (hok : IOk x) (hr : IRefines x m)
     (hpg : 0 < x.cache.cfg.page) -- added: page size of the paging loops
     (D : PyVal → Bytes) (hD : HistCodec D ops) -- added: the calls agree on a lawful key codec
@@ -492,7 +631,8 @@ theorem irun_refines (x : Index) (m : ODict) (ops : List IOp) (hok : IOk x) (hr 
   ⟨(irun_refines_strong x m ops hok hr hpg D (fun _ => ⟨hD, hkeys⟩)).1,
    (irun_refines_strong x m ops hok hr hpg D (fun _ => ⟨hD, hkeys⟩)).2.1⟩
 
-/-- histories without `popitem`: no hypothesis on the codecs at all -/
+/-- histories without `popitem` (and without `items`, `values`, `==`, `!=`: the calls of
+`NeedsCodec`): no hypothesis on the codecs at all -/
 theorem irun_refines_no_popitem (x : Index) (m : ODict) (ops : List IOp) (hok : IOk x) (hr : IRefines x m)
     (hpg : 0 < x.cache.cfg.page) -- added: page size of the paging loops
     (hnp : ∀ op ∈ ops, NeedsCodec op = false) :
@@ -684,6 +824,76 @@ theorem popitem_irefines_needs_codec :
   refine ⟨exIx, _, ⟨exIx_ok, hgood⟩, rfl, ?_⟩
   show ¬ (List.map _ _ = _)
   decide +kernel
+
+/-- the Index of `popitem_end_needs_codec` is a quiescent, file-consistent Index -/
+theorem exIx_iok : IOk exIx := by
+  refine ⟨exIx_ok, exIx_ok.inv, ⟨?_, ?_, ?_, ?_⟩, ?_, rfl, rfl, rfl, rfl⟩
+  · intro r hr f hf
+    simp only [exIx, List.mem_singleton] at hr
+    subst hr
+    simp [exBigRow] at hf
+  · exact List.pairwise_singleton _ _
+  · intro p hp; cases hp
+  · exact List.nodup_nil
+  · intro p hp; cases hp
+
+/-- the dictionary `exIx` represents: one binding, key 2^64 stored as an integer cell -/
+def exIxDict : ODict := exIx.cache.rows.map (fun r => ((r.key, r.raw), entryOfRow exIx.cache r))
+
+/-- `hcodec` is necessary for `items`: on the Index of `popitem_end_needs_codec` the look-up of the
+key decoded from the only row misses: the model's view raises KeyError (as persistent.py:
+`ItemsView.__iter__` evaluates `index[key]`), the dictionary shows the item -/
+theorem items_irefines_needs_codec :
+    ∃ (x : Index) (m : ODict), IOk x ∧ IRefines x m ∧
+      (x.items Cache.exE 0).2 ≠ (OSpec.items m Cache.exE x.cache.cfg).2 := by
+  refine ⟨exIx, exIxDict, exIx_iok, rfl, ?_⟩
+  have h1 : (exIx.items Cache.exE 0).2 = .exc "KeyError" := by rfl
+  have h2 : (OSpec.items exIxDict Cache.exE exIx.cache.cfg).2 =
+      .list [.tup [.val (.int 18446744073709551616), .val (.int 0)]] := by rfl
+  intro h
+  rw [h1, h2] at h
+  cases h
+
+/-- `hcodec` is necessary for `values` (same Index) -/
+theorem values_irefines_needs_codec :
+    ∃ (x : Index) (m : ODict), IOk x ∧ IRefines x m ∧
+      (x.values Cache.exE 0).2 ≠ (OSpec.values m Cache.exE x.cache.cfg).2 := by
+  refine ⟨exIx, exIxDict, exIx_iok, rfl, ?_⟩
+  have h1 : (exIx.values Cache.exE 0).2 = .exc "KeyError" := by rfl
+  have h2 : (OSpec.values exIxDict Cache.exE exIx.cache.cfg).2 = .list [.val (.int 0)] := by
+    rfl
+  intro h
+  rw [h1, h2] at h
+  cases h
+
+/-- `hcodec` is necessary for `==` and `!=`, against ordered and unordered mappings alike (same
+Index): the model raises KeyError at the first look-up, the dictionary compares the pair (unequal) -/
+theorem eqTo_irefines_needs_codec :
+    ∃ (x : Index) (m : ODict) (other : List (PyVal × PyVal)), IOk x ∧ IRefines x m ∧
+      ∀ ordered,
+        (x.eqTo Cache.exE 0 ordered other).2 ≠ (OSpec.eqTo m Cache.exE x.cache.cfg ordered other).2 ∧
+        (x.neTo Cache.exE 0 ordered other).2 ≠ (OSpec.neTo m Cache.exE x.cache.cfg ordered other).2 := by
+  refine ⟨exIx, exIxDict, [(.int 18446744073709551616, .int 1)], exIx_iok, rfl, ?_⟩
+  intro ordered
+  have h1 : ∀ o, (exIx.eqTo Cache.exE 0 o [(.int 18446744073709551616, .int 1)]).2 = .exc "KeyError" := by
+    intro o; cases o <;> rfl
+  have h2 : ∀ o, (match (OSpec.eqTo exIxDict Cache.exE exIx.cache.cfg o
+      [(.int 18446744073709551616, .int 1)]).2 with | .bool false => true | _ => false) = true := by
+    intro o; cases o <;> decide +kernel
+  have h3 : ∀ o, (exIx.neTo Cache.exE 0 o [(.int 18446744073709551616, .int 1)]).2 = .exc "KeyError" := by
+    intro o; cases o <;> rfl
+  have h4 : ∀ o, (match (OSpec.neTo exIxDict Cache.exE exIx.cache.cfg o
+      [(.int 18446744073709551616, .int 1)]).2 with | .bool true => true | _ => false) = true := by
+    intro o; cases o <;> decide +kernel
+  refine ⟨?_, ?_⟩
+  · intro h
+    have := h2 ordered
+    rw [← h, h1] at this
+    cases this
+  · intro h
+    have := h4 ordered
+    rw [← h, h3] at this
+    cases this
 
 /-- a second codec, lawful by itself, that disagrees with `exEI` on how keys are pickled -/
 def exEI2 : Externals :=
